@@ -1,0 +1,15 @@
+//go:build verif
+
+package sfnt
+
+import (
+	"seehuhn.de/go/sfnt/cmap"
+	"seehuhn.de/go/sfnt/opentype/gtab"
+)
+
+// This file only exports an unexported function for the verification harness
+// in /verif (property C15).  It is compiled with the build tag "verif" only
+// and does not change any behaviour.
+
+// VerifStandardLigatures calls standardLigatures.
+func VerifStandardLigatures(c cmap.Subtable) *gtab.Info { return standardLigatures(c) }
